@@ -220,7 +220,7 @@ func check(c Case) (saved []byte, err error) {
 				break
 			}
 			ra, rb := origCalls[ci], fresh.Run(call)
-			if sess.TimedOut(ra) || sess.TimedOut(rb) || strings.Contains(ra.Out+rb.Out, "context deadline exceeded") || strings.Contains(ra.Out+rb.Out, "context canceled") {
+			if sess.TimedOut(ra) || sess.TimedOut(rb) || sess.MemoryRefused(ra) || sess.MemoryRefused(rb) || strings.Contains(ra.Out+rb.Out, "context deadline exceeded") || strings.Contains(ra.Out+rb.Out, "context canceled") {
 				break // a deadline fired (possibly inside catch()): everything after it depends on timing
 			}
 			if ra.Out != rb.Out || ra.Echo != rb.Echo || ra.Failed() != rb.Failed() {
